@@ -1,6 +1,7 @@
 /-
   Attrs — executable model of supp's attribute tables (supp/name.py):
-    ClassObject._cls_attrs / bases / _attrs,  InstanceValue._inst_attrs / _attrs (tree after bd90a2a),
+    ClassObject._cls_attrs / bases / _attrs,  InstanceValue._inst_attrs / _attrs (tree after bd90a2a and
+    a174aec: in-progress guard `_busy` in `_attrs` and `_inst_attrs`),
     SourceScope.assigns restricted to one instance (MultiValue per attribute name),
     and the pre-fix InstanceValue._attrs (`instAttrsLegacy`).
   Core Lean only.  What is outside the code is a parameter: how a base expression evaluates
@@ -21,7 +22,8 @@ inductive Base where
   /-- a RuntimeName wrapping a builtin type: `attrs` = keys of `vars(type)`,
       `inst` = names of `dir(type())` (attributes of `RuntimeName.call`; [] when the call fails) -/
   | builtin (name : String) (attrs : List String) (inst : List String)
-  /-- an expression supp cannot evaluate (None, dropped by `filter(None, …)`) -/
+  /-- an expression whose value is not a `Callable` (None, a CompositeValue, an instance): dropped by
+      `ClassObject.bases` -/
   | unknown
 deriving DecidableEq, Repr
 
@@ -97,9 +99,8 @@ def baseClassAttrs (rec : ClassId → Dict Val) : Base → Dict Val
 def mergeBases (F : Base → Dict Val) (bases : List Base) (init : Dict Val) : Dict Val :=
   bases.reverse.foldl (fun acc b => Dict.update acc (F b)) init
 
-/-- `ClassObject._attrs`: `for b in reversed(bases): attrs.update(b._attrs)`, then the own body.
-    Fuel stands for Python's stack: the real code has no guard here (a cyclic hierarchy recurses until
-    RecursionError, see `Acyclic`). -/
+/-- `ClassObject._attrs` WITHOUT the in-progress guard (the code before a174aec; a cyclic hierarchy made it
+    recurse until RecursionError — fuel stands for Python's stack).  Kept for `instAttrsLegacyF`. -/
 def classAttrsF : Nat → Hier → ClassId → Dict Val
   | 0, _, _ => []
   | n + 1, h, c =>
@@ -111,7 +112,7 @@ def baseInstOnly (rec : ClassId → Dict Val) : Base → Dict Val
   | .src d => rec d
   | _ => []
 
-/-- `InstanceValue._inst_attrs` -/
+/-- `InstanceValue._inst_attrs` without the guard (before a174aec) -/
 def instOnlyF : Nat → Hier → ClassId → Dict Val
   | 0, _, _ => []
   | n + 1, h, c =>
@@ -124,21 +125,54 @@ def baseRuntimeInst : Base → Dict Val
   | .builtin nm _ inst => fromKeys inst (.builtin nm)
   | _ => []
 
-/-- evaluating class `c` with fuel `n` never runs out of fuel -/
+/-- evaluating class `c` with fuel `n` never runs out of fuel (unguarded tables) -/
 def okF : Nat → Hier → ClassId → Bool
   | 0, _, _ => false
   | n + 1, h, c => (getDef h c).bases.all (fun b => match b with | .src d => okF n h d | _ => true)
 
+/-- `ClassObject._attrs` (current tree): `busy` = the classes whose `_busy` flag is set, i.e. the classes being
+    collected on the current path; a class met again contributes NOTHING (not even its own body), otherwise
+    `for b in reversed(bases): attrs.update(b._attrs)` and then the own body.
+    The recursion is bounded by the guard (each level adds a class of `h` to `busy`; a class outside `h` has no
+    bases): `fuel h` always suffices, see `classAttrsG_total`.
+    Not modelled: `cached_property` keeps the partial table a class got while an ancestor-in-a-cycle was busy;
+    on cyclic hierarchies in which such a class is reached again along another path the real answer depends on
+    the traversal order.  On acyclic hierarchies the guard never fires and the cache is invisible. -/
+def classAttrsG : Nat → List ClassId → Hier → ClassId → Dict Val
+  | 0, _, _, _ => []
+  | n + 1, busy, h, c =>
+    if c ∈ busy then []
+    else
+      Dict.update (mergeBases (baseClassAttrs (classAttrsG n (c :: busy) h)) (getDef h c).bases [])
+        (clsAttrs (getDef h c))
+
+/-- `InstanceValue._inst_attrs` (current tree), guard `_busy` of the instance values -/
+def instOnlyG : Nat → List ClassId → Hier → ClassId → Dict Val
+  | 0, _, _, _ => []
+  | n + 1, busy, h, c =>
+    if c ∈ busy then []
+    else
+      Dict.update (mergeBases (baseInstOnly (instOnlyG n (c :: busy) h)) (getDef h c).bases [])
+        (ownInst (getDef h c))
+
+/-- collecting class `c` with fuel `n` neither runs out of fuel nor meets a busy class -/
+def okG : Nat → List ClassId → Hier → ClassId → Bool
+  | 0, _, _, _ => false
+  | n + 1, busy, h, c =>
+    decide (c ∉ busy) &&
+      (getDef h c).bases.all (fun b => match b with | .src d => okG n (c :: busy) h d | _ => true)
+
 def fuel (h : Hier) : Nat := h.length + 1
 
-/-- no inheritance cycle is reachable from `c` (every chain of source bases from `c` is shorter than the
-    number of classes + 1).  On a cyclic hierarchy the real code raises RecursionError (property C08). -/
-def Acyclic (h : Hier) (c : ClassId) : Prop := okF (fuel h) h c = true
+/-- no inheritance cycle is reachable from `c`: while the table of `c` is collected the in-progress guard never
+    fires (and `fuel h` is enough).  On a cyclic hierarchy the guard cuts the cycle (totality: C08); the lookup
+    order of C06 is stated for acyclic hierarchies. -/
+def Acyclic (h : Hier) (c : ClassId) : Prop := okG (fuel h) [] h c = true
 
 instance (h : Hier) (c : ClassId) : Decidable (Acyclic h c) := by unfold Acyclic; infer_instance
 
-def classAttrs (h : Hier) (c : ClassId) : Dict Val := classAttrsF (fuel h) h c
-def instOnly (h : Hier) (c : ClassId) : Dict Val := instOnlyF (fuel h) h c
+def classAttrs (h : Hier) (c : ClassId) : Dict Val := classAttrsG (fuel h) [] h c
+def instOnly (h : Hier) (c : ClassId) : Dict Val := instOnlyG (fuel h) [] h c
 
 /-- `InstanceValue._attrs` (current tree): runtime instances of builtin bases, then the class table of
     the whole hierarchy, then everything assigned through `self` -/
@@ -160,5 +194,8 @@ def instAttrsLegacyF : Nat → Hier → ClassId → Dict Val
     Dict.update (mergeBases (baseLegacy (instAttrsLegacyF n h)) cd.bases (classAttrsF (n + 1) h c)) (ownInst cd)
 
 def instAttrsLegacy (h : Hier) (c : ClassId) : Dict Val := instAttrsLegacyF (fuel h) h c
+
+/-- what `cls` in a classmethod was looked up in before 51a17f1: the instance table -/
+def clsParamLegacy (h : Hier) (c : ClassId) : Dict Val := instAttrs h c
 
 end SuppModel.Attrs
